@@ -552,7 +552,7 @@ VF_SUB(pkt_pkesk, 3000, 60000) {
   // the decoder refuses PKESK bodies shorter than 16 octets (an RSA or ECDH value below 2^24): such values do not occur, excluded
   if (kind == 0) { algo = 1; v.push_back(gen_int(ctx, 4096, nullptr, true)); if (R::zbits(v[0]) < 33) v[0] += Z(1) << 40; Mpi me(v[0]); PGP::PacketPkeskEncode(keyid, me, lib); fields = R::mpis(v); }
   else if (kind == 1) { algo = 16; v.push_back(gen_int(ctx, 3072, nullptr, true)); v.push_back(gen_int(ctx, 3072, nullptr, true)); Mpi gk(v[0]), myk(v[1]); PGP::PacketPkeskEncode(keyid, gk, myk, lib); fields = R::mpis(v); }
-  else { algo = 18; v.push_back(gen_int(ctx, 1100, nullptr, true)); if (R::zbits(v[0]) < 33) v[0] += Z(1) << 40; rkw = content(ctx, (size_t)(ctx.c.prob(1, 5) ? ctx.c.range(1, 254) : 8 * ctx.c.range(3, 7))); tmcg_openpgp_byte_t buf[256]; memset(buf, 0, sizeof buf); memcpy(buf, rkw.data(), rkw.size());
+  else { algo = 18; v.push_back(gen_int(ctx, 1100, nullptr, true)); if (R::zbits(v[0]) < 33) v[0] += Z(1) << 40; { static const size_t edge[3] = {1, 2, 254}; size_t rl = ctx.c.prob(1, 5) ? (ctx.c.prob(1, 3) ? edge[ctx.c.index(3)] : (size_t)ctx.c.range(1, 254)) : (size_t)(8 * ctx.c.range(3, 7)); rkw = content(ctx, rl); } /* wrapped key: multiples of 8 as key wrap gives them, any length, and the shortest / longest length octet values */ tmcg_openpgp_byte_t buf[256]; memset(buf, 0, sizeof buf); memcpy(buf, rkw.data(), rkw.size());
     Mpi e(v[0]); PGP::PacketPkeskEncode(keyid, e, rkw.size(), buf, lib); fields = R::mpis(v); R::put8(fields, (unsigned)rkw.size()); R::put(fields, rkw); }
   ctx.desc << "PKESK algo " << algo << ", key id " << R::hex(keyid) << ", first MPI " << R::zbits(v[0]) << " bits" << (kind == 2 ? ", wrapped key " + N(rkw.size()) + " octets" : std::string()); ctx.label("PKESK algorithm " + N(algo)); if (keyid == Bytes(8, 0)) ctx.label("wild card key id");
   Bytes ref = R::packet(1, R::pkesk_body(keyid, algo, fields));
